@@ -3,7 +3,7 @@
 R11.1  registry read-modify-write-union: the dict loaded from the registry file is the one updated and dumped;
        every return of _update_registry is the union over *all* clients; emit regenerates code *and* names from it;
        the registry key is the client's full dotted package name
-R11.2  the "shared core" predicate holds for every layout in which the core lies outside the client package
+R11.2  the "shared core" predicate holds for every layout (core outside the client package at any depth, or embedded in it and re-used later)
        (the predicate's AST is evaluated over symbolic directory layouts of depth 1..4 by a path-algebra interpreter)
 R11.4  the import header of the regenerated alias file covers every base class the union of codes can need
 R11.3  core emission is additive: the core/exception emitters never delete, and always (re)write what they own
@@ -49,6 +49,8 @@ class PathAlgebra:
         for st in stmts:
             if isinstance(st, ast.Expr) and isinstance(st.value, ast.Constant):
                 continue
+            if isinstance(st, (ast.Import, ast.ImportFrom, ast.Pass)):
+                continue  # local imports only bind module/class names (Path, os) that ev() recognises by name
             if isinstance(st, ast.Return):
                 raise _Return(self.ev(st.value) if st.value is not None else None)
             if isinstance(st, ast.Assign) and len(st.targets) == 1 and isinstance(st.targets[0], ast.Name):
@@ -142,6 +144,8 @@ class PathAlgebra:
                 return self.ev(e.args[0])
             if name == "len" and len(e.args) == 1:
                 return len(self.ev(e.args[0]))
+            if name == "bool" and len(e.args) == 1:
+                return bool(self.ev(e.args[0]))
             if name == "os.path.dirname" and len(e.args) == 1:
                 v = self.ev(e.args[0])
                 return v[:-1]
@@ -458,8 +462,10 @@ def run(repo: Repo, rep: Report, tier: str) -> None:
             unsupported = str(e)
             break
         n_eval += 1
-        outside = lay["kind"] != "embedded"
-        if outside and not res:
+        # embedded cores count too: the default core of one client (billing.core) becomes a shared core as soon as a later
+        # client is generated with core_package="billing.core"; if the first client never registered, that generation
+        # rebuilds the alias file without its codes (witness: /verif/known_findings.json fixed entry 8d04ce6)
+        if not res:
             fails.append(lay)
     rep.count("R11.2:layouts_evaluated", n_eval)
     sub2 = f"{mod.relpath}:ExceptionsEmitter._is_shared_core"
@@ -473,13 +479,13 @@ def run(repo: Repo, rep: Report, tier: str) -> None:
             seen_kinds.add(lay["kind"])
             bad = [f for f in fails if f["kind"] == lay["kind"]]
             subk = f"{sub2} layout {lay['kind']}"
-            if lay["kind"] == "embedded":
-                rep.ok("R11.2", subk, "embedded core: either answer is safe (a private core has one client)", shared.loc())
-            elif bad:
+            if bad:
                 b = bad[0]
                 rep.violation("R11.2", subk, f"{shared.fq}|not-shared|{lay['kind']}",
                               f"core at {'/'.join(b['core_dir'])} with client package {b['client_pkg']} is not recognised as shared: the registry is "
-                              "skipped and generating a second client removes the first client's exception classes", shared.loc())
+                              "skipped and generating a second client "
+                              + ("that re-uses this embedded core " if lay["kind"] == "embedded" else "")
+                              + "removes the first client's exception classes", shared.loc())
             else:
                 rep.ok("R11.2", subk, "predicate is true for every client depth 1..3", shared.loc())
     # the call passes the directory that is written to + the client name
